@@ -273,20 +273,22 @@ theorem srvHost_perm_invariant (thr : Nat) (l l' : List Bytes) (look : Bytes →
 
 /-! ## the host matcher of the automatic HTTP→HTTPS redirect route -/
 
-/-- FULL STATEMENT (false for the code as it is, `provisioned = false`): which redirect a name gets
-    does not depend on how many other names the server has.  Counter-example (threshold 2 in
-    place of 100): one route with `Example.com` — `example.com` is redirected by the host-matched
-    route; the same route plus a second route with two unrelated names — it falls to the
-    catch-all.  The matcher is used without `Provision`, so a "large" list is neither
-    lower-cased nor laid out for the binary search.  Known finding `srvredir-size`;
-    with the matcher provisioned the clause holds (`redirHost_provisioned_is_plain_scan`). -/
-theorem redirHost_size_invariant_unprovisioned_fails :
+/-- **the clause was false for the code before the `fix:` commit "provision the host matcher of
+    the automatic HTTP->HTTPS redirect route"** (`provisioned = false`): which redirect a name gets
+    depended on how many other names the server had.  Counter-example (threshold 2 in place of
+    100): one route with `Example.com` — `example.com` is redirected by the host-matched route;
+    the same route plus a second route with two unrelated names — it fell to the catch-all.
+    The matcher was used without `Provision`, so a "large" list was neither lower-cased nor
+    laid out for the binary search.  With the matcher provisioned (the code as it is) the same
+    case is answered correctly, and `redirHost_provisioned_is_plain_scan` holds for every size.
+    Regression case: `corpus/C06/redirect-hostmatcher-size.txt`. -/
+theorem redirHost_size_invariant_old_code_fails :
     redirCase false 2 [[[69, 120, 97, 109, 112, 108, 101, 46, 99, 111, 109]]] (fun _ => []) (fun _ => []) (fun _ => false) [101, 120, 97, 109, 112, 108, 101, 46, 99, 111, 109] = .res true ∧
     redirCase false 2 [[[69, 120, 97, 109, 112, 108, 101, 46, 99, 111, 109]], [[122, 122, 49, 46, 105, 110, 118, 97, 108, 105, 100], [122, 122, 50, 46, 105, 110, 118, 97, 108, 105, 100]]] (fun _ => []) (fun _ => []) (fun _ => false) [101, 120, 97, 109, 112, 108, 101, 46, 99, 111, 109] = .res false ∧
     redirCase true 2 [[[69, 120, 97, 109, 112, 108, 101, 46, 99, 111, 109]], [[122, 122, 49, 46, 105, 110, 118, 97, 108, 105, 100], [122, 122, 50, 46, 105, 110, 118, 97, 108, 105, 100]]] (fun _ => []) (fun _ => []) (fun _ => false) [101, 120, 97, 109, 112, 108, 101, 46, 99, 111, 109] = .res true := by
   decide
 
-/-- provable part for the code as it is: up to `thr` redirect domains the unprovisioned matcher is
+/-- what did hold for the old code: up to `thr` redirect domains the unprovisioned matcher was
     the plain scan of the domain list -/
 theorem redirHost_unprovisioned_partial (thr : Nat) (domains : List Bytes) (look : Bytes → Bytes) (rhost : Bytes)
     (h : ¬ domains.length > thr) :
@@ -669,12 +671,40 @@ theorem siteCase_key_spelling_invariant (thr : Nat) (n n' port q : Bytes) (mode 
     (hs : (n ++ cColon :: port).contains cSlash = false) (hs' : n'.contains cSlash = false)
     (hq : keyPathShape q = true)
     (hns : hasPrefix (n ++ cColon :: port ++ q) httpScheme = false)
-    (hns' : hasPrefix (n' ++ q) httpScheme = false)
+    (hns2 : hasPrefix (n ++ cColon :: port ++ q) httpsScheme = false)
+    (hns' : hasPrefix (n' ++ q) httpScheme = false) (hns2' : hasPrefix (n' ++ q) httpsScheme = false)
     (hcase : lower n = lower n') :
     siteCase thr (n ++ cColon :: port ++ q) mode hosts pats h p e =
       siteCase thr (n' ++ q) mode hosts pats h p e := by
   unfold siteCase
-  rw [parseSiteKey_name_port n port q hn hport hs hq hns, parseSiteKey_name n' q hn' hs' hq hns', hcase]
+  rw [parseSiteKey_name_port n port q hn hport hs hq hns hns2, parseSiteKey_name n' q hn' hs' hq hns' hns2', hcase]
+
+/-- `handle /pat`, `route /pat` and `handle_path /pat` guard their block with the path matcher
+    `[pat]` — the very token, not the prefix `handle_path` strips afterwards -/
+theorem tokCase_handle_and_handle_path (thr : Nat) (pat rhost p e : Bytes) :
+    tokCase thr .handle [] [pat] rhost p e = .res (pathCase [pat] p e) ∧
+    tokCase thr .handlePath [] [pat] rhost p e = .res (pathCase [pat] p e) := ⟨rfl, rfl⟩
+
+/-- the scheme prefix of a site key never reaches the host matcher: `https://name` = `name` -/
+theorem parseSiteKey_scheme_dropped (rest : Bytes) (h1 : hasPrefix rest httpScheme = false)
+    (h2 : hasPrefix rest httpsScheme = false) :
+    parseSiteKey (httpsScheme ++ rest) = parseSiteKey rest ∧ parseSiteKey (httpScheme ++ rest) = parseSiteKey rest := by
+  have e1 : dropScheme rest = rest := by unfold dropScheme; rw [h1, h2]; rfl
+  have e2 : dropScheme (httpsScheme ++ rest) = rest := by
+    unfold dropScheme
+    have a : hasPrefix (httpsScheme ++ rest) httpScheme = false := by
+      simp [httpsScheme, httpScheme, hasPrefix]
+    have b : hasPrefix (httpsScheme ++ rest) httpsScheme = true := by
+      rw [hasPrefix_iff]; exact ⟨rest, rfl⟩
+    rw [a, b]; simp [httpsScheme]
+  have e3 : dropScheme (httpScheme ++ rest) = rest := by
+    unfold dropScheme
+    have b : hasPrefix (httpScheme ++ rest) httpScheme = true := by
+      rw [hasPrefix_iff]; exact ⟨rest, rfl⟩
+    rw [b]; simp [httpScheme]
+  unfold parseSiteKey
+  rw [e1, e2, e3]
+  exact ⟨rfl, rfl⟩
 
 /-- the implicit matcher token `/pattern` is the path matcher with that one pattern, `*` is no matcher -/
 theorem tokCase_implicit_and_star (thr : Nat) (pat rhost p e : Bytes) :
